@@ -905,3 +905,90 @@ func (b Bounds) GenAliasShape(emit func(*Case)) {
 		}
 	}
 }
+
+// OriginShapes lists the shapes of GenOriginShape (Maven only, used by C12).
+var OriginShapes = []string{"origin-direct", "origin-transitive"}
+
+// GenOriginShape enumerates Maven manifests in which ONE artifact is declared under two origins (or only
+// in a management section), crossed with the usual vulnerability sets:
+//
+//	declarations(x; S)  for versions v, w in S (all pairs, equal and different):
+//	                    direct(v) + dependencyManagement(w); direct(v) + active-profile dependency(w);
+//	                    direct(v) + active-profile dependencyManagement(w) (thorough only);
+//	                    for v in S: direct(no <version>) + dependencyManagement(v)  (management only)
+//	origin-direct       x = d1 is the vulnerable direct dependency; d1 publishes S
+//	                    S in Subsets(ladder, min(MaxVers,2)) x declarations(d1; S) x VulnSets(d1) x CfgSets(d1)
+//	origin-transitive   manifest {d1: 1.0.0} + dependencyManagement / profile management entry t1: w;
+//	                    d1@1.0.0 -> t1@v; t1 publishes T; vulnerable t1
+//	                    T in Subsets(ladder, min(MaxVers,2)) x v, w in T x {management; thorough: profile-management} x VulnSets(t1) x CfgSets(d1,t1)
+//	quick drops the {[0,f),[0,f')} pairs from VulnSets in both shapes.
+func (b Bounds) GenOriginShape(shape string, emit func(*Case)) {
+	l := b.Ladder
+	subs := Subsets(l, min(b.MaxVers, 2)) // two published versions express "same" and "different" declarations
+	// quick: vulnerability sets without the two-open-vulns pairs, and no profile-management origin
+	trim := func(in [][]Vuln) [][]Vuln {
+		if b.Thorough {
+			return in
+		}
+		var out [][]Vuln
+		for _, vs := range in {
+			if len(vs) == 2 && vs[1].Introduced == "0" {
+				continue
+			}
+			out = append(out, vs)
+		}
+		return out
+	}
+	dOrigins := []string{OriginManagement, OriginProfile}
+	tOrigins := []string{OriginManagement}
+	if b.Thorough {
+		dOrigins = append(dOrigins, OriginProfileManagement)
+		tOrigins = append(tOrigins, OriginProfileManagement)
+	}
+	switch shape {
+	case "origin-direct":
+		vs1 := trim(b.VulnSets("d1"))
+		cfgs := b.CfgSets([]string{"d1"})
+		for _, s := range subs {
+			var decls [][]Req
+			for _, v := range s {
+				for _, w := range s {
+					for _, o := range dOrigins {
+						decls = append(decls, []Req{{Name: "d1", Req: v}, {Name: "d1", Req: w, Origin: o}})
+					}
+				}
+			}
+			for _, v := range s {
+				decls = append(decls, []Req{{Name: "d1", NoVersion: true}, {Name: "d1", Req: v, Origin: OriginManagement}})
+			}
+			for _, d := range decls {
+				for _, vs := range vs1 {
+					for _, cfg := range cfgs {
+						emit(&Case{Eco: Maven, Shape: shape, Pkgs: []Pkg{{Name: "d1", Vers: plainVers(s)}},
+							Manifest: append([]Req(nil), d...), Vulns: append([]Vuln(nil), vs...), Cfg: cfg})
+					}
+				}
+			}
+		}
+	case "origin-transitive":
+		vsT := trim(b.VulnSets("t1"))
+		cfgs := b.CfgSets([]string{"d1", "t1"})
+		for _, t := range subs {
+			for _, v := range t {
+				for _, w := range t {
+					for _, o := range tOrigins {
+						for _, vs := range vsT {
+							for _, cfg := range cfgs {
+								emit(&Case{Eco: Maven, Shape: shape, Pkgs: []Pkg{
+									{Name: "d1", Vers: []Ver{{V: "1.0.0", Deps: []Dep{{Name: "t1", Req: v}}}}},
+									{Name: "t1", Vers: plainVers(t)},
+								}, Manifest: []Req{{Name: "d1", Req: "1.0.0"}, {Name: "t1", Req: w, Origin: o}},
+									Vulns: append([]Vuln(nil), vs...), Cfg: cfg})
+							}
+						}
+					}
+				}
+			}
+		}
+	}
+}
